@@ -879,12 +879,14 @@ def parse_host(host):
             raise URLParseError(f'invalid IPv6 host: {host!r} ({se!r})')
         except UnicodeEncodeError:
             pass  # TODO: this can't be a real host right?
+        except ValueError as ve:  # e.g., embedded null character
+            raise URLParseError(f'invalid IPv6 host: {host!r} ({ve!r})')
         else:
             family = socket.AF_INET6
             return family, host
     try:
         inet_pton(socket.AF_INET, host)
-    except (OSError, UnicodeEncodeError):
+    except (OSError, ValueError):  # includes UnicodeEncodeError
         family = None  # not an IP
     else:
         family = socket.AF_INET
